@@ -57,22 +57,17 @@ def resolve(ref):
 
 # ------------------------------------------------------------------ worker
 def _work(task):
-    prop, hname, ci, mode, exclusions, check_ms = task
+    prop, hname, ci, mode, exclusions, check_ms = task[:6]
+    opts = task[6] if len(task) > 6 else {}
     try:
         from . import engine, front
         hs, _ = load_contracts(prop)
         h = next(x for x in hs if x.name == hname)
         case = h.case_list()[ci]
-        if exclusions:
-            # patch Explorer to carry the exclusions
-            from . import path as P
-            orig = P.Explorer.__init__
-
-            def init(self, *a, **k):
-                orig(self, *a, **k)
-                self.exclusions = {lab: [resolve(r) for r in refs] for lab, refs in exclusions.items()}
-            P.Explorer.__init__ = init
-        r = engine.run_symbolic(h, case, float_mode=mode, check_ms=check_ms)
+        excl = {lab: [resolve(r) for r in refs] for lab, refs in exclusions.items()} if exclusions else None
+        r = engine.run_symbolic(h, case, float_mode=mode, check_ms=check_ms, exclusions=excl,
+                                stop_on_repro=opts.get("stop_on_repro", False),
+                                budget_s=opts.get("budget_s"))
         r["obligations"] = [o.__dict__ for o in r["obligations"]]
         r["ends"] = [e.__dict__ for e in r["ends"]]
         r["ci"] = ci
@@ -141,6 +136,10 @@ def main(argv):
     t0 = time.time()
     hs, _mods = load_contracts(prop)
     hs = [h for h in hs if tier == "thorough" or h.tier == "quick"]
+    only = os.environ.get("VERIF_ONLY")
+    if only:
+        hs = [h for h in hs if any(o in h.name for o in only.split(","))]
+    verbose = bool(os.environ.get("VERIF_VERBOSE"))
     if not hs:
         print(f"ERROR no contracts registered for {prop}")
         return 3
@@ -162,6 +161,14 @@ def main(argv):
     covers = {}
     n_paths = 0
     for r in results:
+        if verbose:
+            print(f"-- {r['harness']}[{r['ci']}] {r['case']} paths={r['paths']} wall={r['wall_s']:.1f}s solver={r['solver_s']:.1f}s q={r['queries']} maxq={r['max_query_s']:.2f}")
+            for o in r["obligations"]:
+                if o["status"] != "proved" or verbose and os.environ.get("VERIF_VERBOSE") == "2":
+                    print(f"     {o['status']:7s} {o['label']} [{o['backend']} {o['secs']:.2f}s] {o['detail'][:160]}")
+            for e in r["ends"]:
+                if e["kind"] not in ("done", "abort"):
+                    print(f"     END {e['kind']}: {e['detail'][:200]}")
         functions.update(r.get("functions", {}))
         inlined.update(r["inlined"])
         solver_s += r["solver_s"]
@@ -218,10 +225,11 @@ def main(argv):
             # exact IEEE-754 encoding (second back end) for a verdict / counterexample
             key = (hname, ci)
             if key not in fp_cache:
-                fp_cache[key] = run_tasks([(prop, hname, ci, "fp", None, 120000)], 1)[0]
+                fp_cache[key] = run_tasks([(prop, hname, ci, "fp", None, 120000, {"stop_on_repro": True, "budget_s": 900})], 1)[0]
             fr = fp_cache[key]
             fobs = [x for x in fr["obligations"] if x["label"] == label]
-            if fr["errors"] or any(e["kind"] == "unsupported" for e in fr["ends"]):
+            fp_hit = [x for x in fobs if x["status"] == "failed" and "[reproduced natively]" in x["detail"]]
+            if not fp_hit and (fr["errors"] or any(e["kind"] == "unsupported" for e in fr["ends"])):
                 undecided.append(f"{hname}[{ci}] '{label}': real-mode counter-model did not replay and fp-exact run is incomplete: "
                                  + "; ".join(fr["errors"] + [e["detail"] for e in fr["ends"] if e["kind"] == "unsupported"])[:300])
                 continue
@@ -280,7 +288,7 @@ def main(argv):
                         break
             if not new_viol:
                 if h.float_mode == "real":
-                    fe = run_tasks([(prop, hname, ci, "fp", ex_task[4], 120000)], 1)[0]
+                    fe = run_tasks([(prop, hname, ci, "fp", ex_task[4], 120000, {"stop_on_repro": True, "budget_s": 900})], 1)[0]
                     fobs = [x for x in fe["obligations"] if x["label"] == label]
                     if fobs and all(x["status"] == "proved" for x in fobs) and not fe["errors"]:
                         known_seen.append(k)
